@@ -76,3 +76,95 @@ func Harness_C13_online_get() {
 	verifAssert(n >= 1, "get-request-answered")
 	verifReach("end")
 }
+
+// A root session attached to a p2p topic acts on behalf of (extra.obo) either participant or a third
+// user while addressing the topic by its p2pXXX name: every request kind must be handled without a
+// panic and (except {note}) answered.
+func Harness_C13_online_p2p_on_behalf() { harnessC13OnBehalf(verifKindP2P) }
+func Harness_C13_online_grp_on_behalf() { harnessC13OnBehalf(verifKindGrp) }
+
+func harnessC13OnBehalf(kind int) {
+	fx := verifNewTopic(kind, 2)
+	t := fx.topic
+	t.lastID = 5
+	verifNotified = nil
+	for _, u := range append(append([]types.Uid{}, fx.uids...), verifStranger) {
+		fx.store.users[u] = &types.User{State: types.StateOK, Access: types.DefaultAccess{Auth: types.ModeCAuth}}
+	}
+	sess := verifNewSession("sid-root", verifRootUid, auth.LevelRoot, 64)
+	fx.attach(sess, fx.uids[0], false)
+	actors := []types.Uid{fx.uids[0], fx.uids[1], verifStranger}
+	actor := actors[verifChoose("actor", len(actors))]
+	msg := &ClientComMessage{Id: "r1", AsUser: actor.UserId(), AuthLvl: int(auth.LevelRoot), Original: t.name, RcptTo: t.name,
+		Timestamp: types.TimeNow(), sess: sess, init: true}
+	wantReply := true
+	switch verifChoose("kind", 6) {
+	case 0:
+		msg.Pub = &MsgClientPub{Id: "r1", Topic: t.name, Content: "x", NoEcho: verifNondetBool("noecho")}
+		t.handlePubBroadcast(msg)
+	case 1:
+		what := []string{"desc", "sub", "data", "del", "tags", "cred"}[verifChoose("what", 6)]
+		msg.Get = &MsgClientGet{Id: "r1", Topic: t.name, MsgGetQuery: MsgGetQuery{What: what}}
+		msg.MetaWhat = parseMsgClientMeta(what)
+		t.handleMeta(msg)
+	case 2:
+		set := &MsgClientSet{Id: "r1", Topic: t.name}
+		switch verifChoose("setwhat", 4) {
+		case 0:
+			set.Desc = &MsgSetDesc{Private: "p"}
+			msg.MetaWhat = constMsgMetaDesc
+		case 1:
+			set.Sub = &MsgSetSub{Mode: []string{"", "JRWPA", "N", "JRWPASDO"}[verifChoose("mode", 4)]}
+			if verifNondetBool("setsub-other") {
+				set.Sub.User = actors[verifChoose("target", len(actors))].UserId()
+			}
+			msg.MetaWhat = constMsgMetaSub
+		case 2:
+			set.Tags = []string{"tag1"}
+			msg.MetaWhat = constMsgMetaTags
+		case 3:
+			set.Desc = &MsgSetDesc{DefaultAcs: &MsgDefaultAcsMode{Auth: "JRW", Anon: "N"}}
+			msg.MetaWhat = constMsgMetaDesc
+		}
+		msg.Set = set
+		t.handleMeta(msg)
+	case 3:
+		del := &MsgClientDel{Id: "r1", Topic: t.name}
+		switch verifChoose("delwhat", 3) {
+		case 0:
+			del.What = "msg"
+			del.DelSeq = []MsgDelRange{{LowId: 1, HiId: verifNondetInt("hi")}}
+			del.Hard = verifNondetBool("hard")
+			msg.MetaWhat = constMsgDelMsg
+		case 1:
+			del.What = "sub"
+			del.User = actors[verifChoose("target", len(actors))].UserId()
+			msg.MetaWhat = constMsgDelSub
+		case 2:
+			// the hub deletes the topic itself when the owner asks; only non-owners are forwarded here
+			verifAssume(t.owner != actor)
+			del.What = "topic"
+			msg.MetaWhat = constMsgDelTopic
+		}
+		msg.Del = del
+		t.handleMeta(msg)
+	case 4:
+		wantReply = false
+		msg.Id = ""
+		msg.Note = &MsgClientNote{Topic: t.name, What: []string{"kp", "read", "recv", "call", "junk"}[verifChoose("notewhat", 5)], SeqId: verifNondetInt("seq")}
+		t.handleNoteBroadcast(msg)
+	case 5:
+		msg.Leave = &MsgClientLeave{Id: "r1", Topic: t.name, Unsub: verifNondetBool("unsub")}
+		t.handleLeaveRequest(msg, msg.sess)
+	}
+	if wantReply {
+		n := 0
+		for _, r := range verifDrainSend(sess) {
+			if r != nil && ((r.Ctrl != nil && r.Ctrl.Id == "r1") || (r.Meta != nil && r.Meta.Id == "r1")) {
+				n++
+			}
+		}
+		verifAssert(n >= 1, "request-on-behalf-answered")
+	}
+	verifReach("end")
+}
